@@ -14,7 +14,8 @@ from ..il import reader
 from .c02 import B64, grid_states
 
 TYPES = gen.INT_TYPES
-CONTEXTS = ["cast", "init", "assign", "chainassign", "reg32", "reg64", "pred", "alias", "arg", "ret", "store"]
+CONTEXTS = ["cast", "init", "assign", "chainassign", "reg32", "reg64", "pred", "alias", "arg", "ret", "store",
+            "compound_add", "compound_mul", "compound_sub"]
 
 
 def tn(t):
@@ -25,9 +26,30 @@ def short(t):
     return f"{'s' if t[0] else 'u'}{t[1]}"
 
 
+# source expressions that are not a typed local: QEMU bitops macros, whose C return type is the source type
+MACRO_SRC = {(False, 32): ["bswap32((uint32_t)RssV)", "extract32((uint32_t)RssV, 4, 28)"],
+             (False, 64): ["bswap64(RssV)", "extract64(RssV, 4, 60)"],
+             (True, 64): ["sextract64(RssV, 4, 16)", "sextract64(RssV, 0, 40)"],
+             (False, 16): ["bswap16((uint16_t)RssV)"]}
+
+
 def cell_program(ctx, ts, tt):
     """-> (program text, effective target type)"""
+    if "@" in ctx:
+        ctx, k = ctx.split("@macro")
+        text, tt_eff = cell_program(ctx, ts, tt)
+        decl = f"{tn(ts)} a = ({tn(ts)})RssV;"
+        assert decl in text
+        import re as _re
+        text = _re.sub(r"\ba\b", MACRO_SRC[ts][int(k)], text.replace(decl, ""))
+        return text, tt_eff
     a = f"{tn(ts)} a = ({tn(ts)})RssV;"
+    if ctx == "compound_add":
+        return f"{{ {a} {tn(tt)} t = 1; t += a; RddV = (int64_t)t; }}", tt
+    if ctx == "compound_mul":
+        return f"{{ {a} {tn(tt)} t = 3; t *= a; RddV = (int64_t)t; }}", tt
+    if ctx == "compound_sub":
+        return f"{{ {a} {tn(tt)} t = 0; t -= a; RddV = (int64_t)t; }}", tt
     if ctx == "cast":
         return f"{{ {a} RddV = (int64_t)(({tn(tt)})a); }}", tt
     if ctx == "init":
@@ -117,11 +139,11 @@ def table_worker(cells, tier, open_classes):
             tt_eff = tt
             cellname = f"{ctxname} bool->{tn(tt)}"
         else:
-            if ctxname in ("arg", "ret") and not subs_ok:
+            if ctxname.split("@")[0] in ("arg", "ret") and not subs_ok:
                 continue
             text, tt_eff = cell_program(ctxname, ts, tt)
             cellname = f"{ctxname} {tn(ts)}->{tn(tt_eff)}"
-        cls = classes_of(ctxname, ts, tt_eff) & open_classes
+        cls = classes_of(ctxname.split("@")[0], ts, tt_eff) & open_classes
         st, il = progcheck.try_compile(c, text)
         if st != "ok":
             p.count("cell:rejected")
@@ -141,6 +163,7 @@ def table_worker(cells, tier, open_classes):
             vals = B64
         extra = {"isa:e": {"w": 8 if ctxname == "pred" else 32, "old": 0, "new": 0},
                  "alias:LR": {"w": 32, "old": 0, "new": 0}}
+        extra["isa:e"]["w"] = 8 if ctxname.split("@")[0] == "pred" else 32
         tvals = [0x1000] if ts is not None else B64
         states = grid_states(vals, tvals, extra)
         for s_ in states:
@@ -258,6 +281,9 @@ def run_check(ctx):
     cells = [(cx, ts, tt) for cx in CONTEXTS for ts in TYPES for tt in TYPES
              if not (cx in ("reg32", "reg64", "pred", "alias") and tt != TYPES[0])]
     cells += [(cx, None, tt) for cx in ("cast", "init", "assign") for tt in TYPES]
+    base_ctx = ["cast", "init", "assign", "reg32", "reg64", "pred", "alias", "arg", "ret", "store"]
+    cells += [(f"{cx}@macro{k}", ts, tt) for cx in base_ctx for ts in MACRO_SRC for k in range(len(MACRO_SRC[ts])) for tt in TYPES
+              if not (cx in ("reg32", "reg64", "pred", "alias") and tt != TYPES[0])]
     cells += [(cx, None, TYPES[0]) for cx in ("reg32", "reg64", "pred")]
     chunks = [cells[i::32] for i in range(32)]
     run.run_sharded(ctx, table_worker, [(c, ctx.tier, open_classes) for c in chunks], procs=16)
